@@ -328,3 +328,57 @@ func VerifC09_HandleUpdateImmutableWhileProgressing() {
 		}
 	}
 }
+
+// VerifC09_AcceptedV1alpha1SpecPromises: a Rollout submitted through v1alpha1 is validated by its own code path and
+// then stored as v1beta1 without passing the v1beta1 validation.  What the controllers rely on must therefore already
+// follow from the v1alpha1 acceptance: after conversion every step carries replicas (the controllers dereference
+// step.Replicas), there is at least one step, and a weight is within 1..100.
+func VerifC09_AcceptedV1alpha1SpecPromises() {
+	r := &appsv1alpha1.Rollout{ObjectMeta: metav1.ObjectMeta{Namespace: "ns", Name: "ro"}}
+	r.Spec.ObjectRef.WorkloadRef = &appsv1alpha1.WorkloadRef{APIVersion: "apps/v1", Kind: "Deployment", Name: "w"}
+	if verifrt.Bool("partitionStyle") {
+		r.Annotations = map[string]string{appsv1alpha1.RolloutStyleAnnotation: "partition"}
+	}
+	canary := &appsv1alpha1.CanaryStrategy{}
+	n := verifrt.Concrete(verifrt.IntRange("nSteps", 0, 2))
+	for i := 0; i < n; i++ {
+		st := appsv1alpha1.CanaryStep{}
+		if verifrt.Bool("step.hasWeight") {
+			w := verifrt.Int32("step.weight")
+			st.Weight = &w
+		}
+		if verifrt.Bool("step.hasReplicas") {
+			st.Replicas = c09Replicas("step.replicas", true)
+		}
+		if verifrt.Bool("step.hasMatches") {
+			st.Matches = []appsv1alpha1.HttpRouteMatch{{}}
+		}
+		canary.Steps = append(canary.Steps, st)
+	}
+	if verifrt.Bool("hasTrafficRouting") {
+		canary.TrafficRoutings = []appsv1alpha1.TrafficRoutingRef{{Service: "svc", Ingress: &appsv1alpha1.IngressTrafficRouting{Name: "ing"}}}
+	}
+	r.Spec.Strategy.Canary = canary
+	var errs field.ErrorList
+	panicked := verifrt.NoPanic(func() {
+		errs = validateV1alpha1RolloutSpec(GetContextFromv1alpha1Rollout(r), r, field.NewPath("Spec"))
+	})
+	verifrt.Assert(!panicked, "C09.v1alpha1.validation.nopanic")
+	if panicked || len(errs) != 0 {
+		verifrt.Cover("rejected")
+		return
+	}
+	verifrt.Cover("accepted")
+	hub := &appsv1beta1.Rollout{}
+	var cerr error
+	panicked = verifrt.NoPanic(func() { cerr = r.ConvertTo(hub) })
+	verifrt.Assert(!panicked && cerr == nil, "C09.v1alpha1.accepted.converts")
+	if panicked || cerr != nil || hub.Spec.Strategy.Canary == nil {
+		return
+	}
+	steps := hub.Spec.Strategy.Canary.Steps
+	verifrt.Assert(len(steps) >= 1, "C09.v1alpha1.accepted.hasSteps")
+	for i := range steps {
+		verifrt.Assert(steps[i].Replicas != nil, "C09.v1alpha1.accepted.everyStepHasReplicas")
+	}
+}
